@@ -31,6 +31,7 @@ func c12(c *Ctx) {
 		fns = append(fns, c.P.FuncsInPkg(pk)...)
 	}
 	c12R7(c)
+	itemIndependent(c, "C14.R8", [][3]string{{eniPkg, "RemoteIPResource.ToRPC", "one configuration (with its own gateway) per allocation"}})
 	// an address handed out belongs to the interface it is reported with: the sets of a deleted
 	// interface are emptied for both families (shared rule)
 	c01R11(c)
